@@ -1,7 +1,7 @@
 (* Evaluation of C11 correspondence cases: Model/MultiJagged.v against the
    implementation, and the certified checkers on the implementation's output.
    Depends on the model only (not on the proofs). *)
-From Coupe Require Import Lib.Prelude Lib.SFloat Lib.Report Model.MultiJagged.
+From Coupe Require Import Lib.Prelude Lib.SFloat Lib.Report Model.MultiJagged Gen.MjGen.
 From Coq Require Import Floats.SpecFloat QArith FMapPositive.
 Open Scope N_scope.
 
@@ -126,6 +126,9 @@ Definition pm_of_list {T} (l : list T) : PositiveMap.t T :=
                  l (PositiveMap.empty T, 1%positive)).
 Definition pm_get {T} (m : PositiveMap.t T) (i : nat) : option T := PositiveMap.find (Pos.of_succ_nat i) m.
 
+(* binary64 with the epsilon the source passes to approx::Ulps (Gen/MjGen.v) *)
+Definition F64impl : arith := if mj_refine_ulps_epsilon_is_zero then F64 else F64_default_epsilon.
+
 (* ---------- one case ---------- *)
 
 Definition unwritten : N := 18446744073709551615.
@@ -155,7 +158,7 @@ Definition eval11 (c : case11) : verdict :=
   let wf := map (fun z => binary_normalize 53 1024 z (c_wexp c) false) (c_ws c) in
   let wq := map (fun z => if (0 <=? c_wexp c)%Z then inject_Z (z * 2 ^ c_wexp c)
                           else Qmake z (Z.to_pos (2 ^ (- c_wexp c)))) (c_ws c) in
-  let sch_model := partition_scheme F64 root k m in
+  let sch_model := partition_scheme F64impl root k m in
   let scheme_ok :=
     match sch_model, c_scheme c with
     | Ok s, Some h => scheme_eqb (map_scheme f64_to_bits s) h
@@ -164,8 +167,8 @@ Definition eval11 (c : case11) : verdict :=
     end in
   let r_model :=
     match c_scheme c with
-    | Some h => mj_with_scheme F64 D n wf sorter blk N.of_nat (map_scheme f64_of_bits h) p0
-    | None => multi_jagged F64 D n wf sorter blk root N.of_nat k m p0
+    | Some h => mj_with_scheme F64impl D n wf sorter blk N.of_nat (map_scheme f64_of_bits h) p0
+    | None => multi_jagged F64impl D n wf sorter blk root N.of_nat k m p0
     end in
   let part_ok :=
     match r_model, c_impl c with
